@@ -179,6 +179,17 @@ Fixpoint clone_slots (h : heap) (ss : list slot) : R heap :=
   | _ :: ss' => clone_slots h ss'
   end.
 
+(** [Clone for Node] chooses what to copy: a node whose last slot holds a
+    dangling Weak ([Weak::new()]) clones to a DETACHED node (no handle is
+    copied); every other node clones all its handles. Both kinds of [Clone]
+    impl occur in practice; only the detached one lets [make_mut] release the
+    last outside handle of an adoption group. *)
+Definition clone_detached (ss : list slot) : bool :=
+  match nth_error ss (NSLOTS - 1) with Some (SWeak None) => true | _ => false end.
+
+Definition cloned_slots (ss : list slot) : list slot :=
+  if clone_detached ss then empty_slots else ss.
+
 Definition slot_of_reg (x : reg) : option slot :=
   match x with
   | RStrong o => Some (SStrong o)
@@ -366,8 +377,8 @@ Definition exec_act (s : state) (self : option payload) (a : act) : aout :=
                   match value b with
                   | None => AHalt (HFault FkValueMoved o)
                   | Some p =>
-                      lift s self (clone_slots h (slots p)) (fun s1 =>
-                        let p' := {| pid := o'; slots := slots p; script := [] |} in
+                      lift s self (clone_slots h (cloned_slots (slots p))) (fun s1 =>
+                        let p' := {| pid := o'; slots := cloned_slots (slots p); script := [] |} in
                         AO (set_reg (set_heap s1 (heap_of s1 ++ [new_box p'])) r (RStrong o'))
                            self RUnit [FDropStrong o])
                   end
